@@ -98,7 +98,7 @@ def run(chk):
                 i = [k for k, v in enumerate(verdict) if v][0]
                 fails.append(("correspondence", "LSP.Sem vs converter", json.dumps({"case": cases[i], "code": verdict[i]})[:1500]))
         else:
-            real = CS.real_run(cases)["results"]
+            real = CS.real_results(cases)
     witness = None
     skipped = []
     for m, c, r in zip(meta, cases, real):
